@@ -170,6 +170,9 @@ template <class Tree> uint64_t hashSymbolic(const Tree& tree) {
 
 template <class T> bool allZero(const T& v) { const unsigned char* p = reinterpret_cast<const unsigned char*>(&v); for (size_t i = 0; i < sizeof(T); ++i) if (p[i]) return false; return true; }
 
+// a configuration TU may force the block-size argument of every generated case (-1 = automatic); 0 = no forcing
+inline long& forcedBlockSize() { static long v = 0; return v; }
+
 inline std::vector<long> blockSizesFor(long nbLeaves, bool all) {
     std::vector<long> v;
     if (all) { for (long b = 1; b <= nbLeaves + 1; ++b) v.push_back(b); return v; }
